@@ -180,7 +180,9 @@ func (qc queueCaller) PipelineRecv(ctx context.Context, transform []capnp.Pipeli
 			path:  clientPathFromTransform(transform),
 			Recv:  r,
 		})
-		basis := len(qc.aq.q) - 1
+		// Entry i of the queue answers as bases[i+1] (bases[0] is the
+		// answer the queue belongs to).
+		basis := len(qc.aq.q)
 		qc.aq.mu.Unlock()
 		return queueCaller{aq: qc.aq, basis: basis}
 	}
